@@ -2,7 +2,8 @@
     that makes interference impossible (no cross-container dependence in fillContainers whatever the
     map iteration order; a read-only shared store); the schedules the Go scheduler actually produces
     and the memory model are observed on the running code under the race detector, not proved. *)
-From MowCli Require Import Base Nfa Matchers Apply Values Cmd ValueProofs OrderProofs Generated Tie.
+From Coq Require Import Sorting.Sorted Sorting.Permutation.
+From MowCli Require Import Base Nfa Matchers Apply Values Cmd ValueProofs OrderProofs SortProofs Generated Tie.
 
 Section C20.
   Variable parse_float : str -> option str.
@@ -57,7 +58,35 @@ Section C20.
     - apply NoDup_rev, seq_NoDup.
     - intros k Hk _. apply in_rev. rewrite rev_involutive. apply in_seq. lia.
   Qed.
+
+  (** (i'') the order the repaired library chooses (D11): the keys of the map sorted by the declared Name. The map
+      hands the bound containers out in an order that changes from run to run and sort.Slice is not stable, yet the
+      sorted list is a function of the set of bound containers: a permutation of them in which no Name is smaller
+      than an earlier one is unique, because the declaration checks make the Names of bindable containers pairwise
+      different. So what fillContainers does is determined by the declarations and the bindings even when
+      containers share a destination. *)
+  Variable getenv : str -> str.
+  Theorem C20_sorted_visit_is_a_function :
+    forall ds opts args (o1 o2 : list nat),
+      declare parse_float getenv ds [] [] = inl (opts, args) ->
+      NoDup o1 -> (forall k, In k o1 -> bindable opts k) -> Permutation o1 o2 ->
+      go_sorted nat (name_at opts) o1 -> go_sorted nat (name_at opts) o2 -> o1 = o2.
+  Proof. exact (sorted_visit_is_a_function parse_float getenv). Qed.
+
+  Theorem C20_sorted_visit_is_a_function_args :
+    forall ds opts args (o1 o2 : list nat),
+      declare parse_float getenv ds [] [] = inl (opts, args) ->
+      NoDup o1 -> (forall k, In k o1 -> k < length args) -> Permutation o1 o2 ->
+      go_sorted nat (name_at args) o1 -> go_sorted nat (name_at args) o2 -> o1 = o2.
+  Proof. exact (sorted_visit_is_a_function_args parse_float getenv). Qed.
 End C20.
+
+(** Go's order on strings, on the names of the witness of D11 and of the seeded change C20-Q: "a aa" < "b bb",
+    "N" < "n num" (upper case first), a proper prefix first *)
+Example C20_string_order :
+  (str_ltb (lit "a aa") (lit "b bb") = true) /\ (str_ltb (lit "N") (lit "n num") = true) /\
+  (str_ltb (lit "ab") (lit "abc") = true) /\ (str_ltb (lit "b") (lit "ab") = false).
+Proof. vm_compute. auto. Qed.
 
 (** (ii) non-interference with a read-only shared store. Each application owns its local state
     ([L]: command tree, containers, automaton states, parse contexts, step chain); the shared store
@@ -118,5 +147,7 @@ Proof. exact tie_package_state. Qed.
 
 Print Assumptions C20_map_order.
 Print Assumptions C20_any_visiting_order.
+Print Assumptions C20_sorted_visit_is_a_function.
+Print Assumptions C20_sorted_visit_is_a_function_args.
 Print Assumptions C20_noninterference.
 Print Assumptions C20_shared_store_is_read_only.
